@@ -1,0 +1,34 @@
+//! Drop-in replacement for the `tokio` crate name inside files which spawn tasks.
+//! `use crate::verif::tokio_shim as tokio;` makes the existing, unmodified lines
+//! `tokio::spawn(..)`, `tokio::task::spawn(..)` resolve to the gated variants below,
+//! everything else (including `tokio::select!`) is real tokio.
+#![allow(missing_docs, unreachable_pub)]
+use std::future::Future;
+
+pub use ::tokio::*;
+
+use super::Gated;
+
+pub fn spawn<F>(future: F) -> ::tokio::task::JoinHandle<F::Output>
+where
+    F: Future + Send + 'static,
+    F::Output: Send + 'static,
+{
+    ::tokio::spawn(Gated::new(future))
+}
+
+pub mod task {
+    use std::future::Future;
+
+    pub use ::tokio::task::*;
+
+    use super::Gated;
+
+    pub fn spawn<F>(future: F) -> ::tokio::task::JoinHandle<F::Output>
+    where
+        F: Future + Send + 'static,
+        F::Output: Send + 'static,
+    {
+        ::tokio::task::spawn(Gated::new(future))
+    }
+}
